@@ -743,7 +743,9 @@ func genModelledFuncs(r *repo, o *out) {
 		{"transmat/mixins/fshash", "MemoryBucket", "Iterator"}, {"transmat/mixins/fshash", "MemoryBucket", "Length"}, {"transmat/mixins/fshash", "memoryBucketIterator", "NextChild"},
 		{"transmat/tar", "", "TarHdrToMetadata"}, {"transmat/tar", "", "MetadataToTarHdr"}, {"transmat/tar", "", "unpackTar"}, {"transmat/tar", "", "packTar"},
 		{"transmat/tar", "", "Decompress"}, {"transmat/tar", "", "DetectCompression"},
-		{"transmat/zip", "", "ZipHdrToMetadata"}, {"transmat/zip", "", "MetadataToZipHdr"}, {"transmat/zip", "", "unpackZip"}, {"transmat/zip", "", "packZip"},
+		{"transmat/zip", "", "ZipHdrToMetadata"}, {"transmat/zip", "", "MetadataToZipHdr"},
+		{"transmat/zip", "", "parseZipExtraHeader"}, {"transmat/zip", "", "parseUnix3Header"}, {"transmat/zip", "", "parseUnix2Header"}, {"transmat/zip", "", "zipFileOwnership"},
+		{"transmat/zip", "", "zipUnix2ExtraHeader"}, {"transmat/zip", "", "zipUnix3ExtraHeader"}, {"transmat/zip", "", "unpackZip"}, {"transmat/zip", "", "packZip"},
 		{"transmat/util", "", "PickReader"}, {"transmat/util", "", "wrapUnpacker"}, {"transmat/util", "", "CreateMirror"}, {"warehouse/util", "", "ChunkifyHash"},
 		{"transmat/util", "flippingReader", "Read"},
 		{"transmat/mixins/cache", "cache", "Unpack"}, {"transmat/mixins/cache", "cache", "populate"}, {"transmat/mixins/cache", "cache", "place"}, {"cache", "", "ShelfFor"},
